@@ -125,14 +125,14 @@ Qed.
 Lemma fx_add_ok sw iw fw a b : 0 <= sw -> 1 <= iw -> 0 <= fw ->
   FixedPoint_add sw iw fw a b = Some (fx_add_spec (fx_width sw iw fw) a b).
 Proof.
-  intros Hs Hi Hf. unfold FixedPoint_add. destruct (fx_zero_ok sw iw fw Hs Hi Hf) as [z ->].
+  intros Hs Hi Hf. unfold FixedPoint_add, FixedPoint_add_gen. destruct (fx_zero_ok sw iw fw Hs Hi Hf) as [z ->].
   cbv zeta. f_equal. apply (trunc_mod (sw + iw + fw) (a + b)); lia.
 Qed.
 
 Lemma fx_sub_ok sw iw fw a b : 0 <= sw -> 1 <= iw -> 0 <= fw ->
   FixedPoint_sub sw iw fw a b = Some (fx_sub_spec (fx_width sw iw fw) a b).
 Proof.
-  intros Hs Hi Hf. unfold FixedPoint_sub. destruct (fx_zero_ok sw iw fw Hs Hi Hf) as [z ->].
+  intros Hs Hi Hf. unfold FixedPoint_sub, FixedPoint_sub_gen. destruct (fx_zero_ok sw iw fw Hs Hi Hf) as [z ->].
   cbv zeta. f_equal. apply (trunc_mod (sw + iw + fw) (a - b)); lia.
 Qed.
 
@@ -150,7 +150,7 @@ Qed.
 Lemma fx_mult_ok sw iw fw a b : 0 <= sw -> 1 <= iw -> 0 <= fw ->
   FixedPoint_mult sw iw fw a b = Some (fx_mult_spec (fx_width sw iw fw) fw a b).
 Proof.
-  intros Hs Hi Hf. unfold FixedPoint_mult. destruct (fx_zero_ok sw iw fw Hs Hi Hf) as [z ->].
+  intros Hs Hi Hf. unfold FixedPoint_mult, FixedPoint_mult_gen. destruct (fx_zero_ok sw iw fw Hs Hi Hf) as [z ->].
   cbv zeta. f_equal. unfold fx_mult_spec, fx_width. set (w := sw + iw + fw).
   assert (Hw : 1 <= w) by (unfold w; lia).
   change (Z.land ?x (py_shl 1 w - 1)) with (trunc w x). rewrite trunc_mod by lia.
@@ -184,7 +184,7 @@ Proof. vm_compute. split; reflexivity. Qed.
 (* finding #23: with no integer bits every operation raises (the model returns None) *)
 Lemma fx_iw0_raises sw fw a b : FixedPoint_add sw 0 fw a b = None /\ FixedPoint_sub sw 0 fw a b = None /\ FixedPoint_mult sw 0 fw a b = None.
 Proof.
-  unfold FixedPoint_add, FixedPoint_sub, FixedPoint_mult, FixedPoint_intToFixedPoint.
+  unfold FixedPoint_add, FixedPoint_sub, FixedPoint_mult, FixedPoint_add_gen, FixedPoint_sub_gen, FixedPoint_mult_gen, FixedPoint_intToFixedPoint.
   replace ((0 <? 0) && (sw =? 0)) with false by reflexivity. cbn [Z.sub Z.opp Z.add Z.ltb Z.compare Z.pos_sub]. repeat split.
 Qed.
 
@@ -352,4 +352,65 @@ Lemma toFloat_num_unsigned iw fw v : 0 <= iw -> 0 <= fw -> 0 <= v < 2 ^ (iw + fw
 Proof.
   intros Hi Hf Hv. unfold FixedPoint_toFloat_num. unfold py_shr. rewrite shiftr_div by lia.
   rewrite Z.div_small by lia. reflexivity.
+Qed.
+
+(* ------------------------------------------------------------------ FixedPoint after the repair of finding #23: iw = 0 allowed *)
+Lemma intToFixedPoint_r_spec sw iw fw v : 0 <= sw -> 0 <= iw -> 0 <= fw ->
+  (0 <= v \/ sw <> 0) -> v <= 2 ^ iw / 2 ->
+  FixedPoint_intToFixedPoint_r sw iw fw v = Some (fx_of_int_spec (fx_width sw iw fw) fw v).
+Proof.
+  intros Hs Hi Hf Hv Hmax. unfold FixedPoint_intToFixedPoint_r, fx_of_int_spec, fx_width.
+  replace ((v <? 0) && (sw =? 0)) with false by (destruct Hv; lia).
+  replace (iw <? 0) with false by lia. cbv zeta. rewrite shl1 by lia.
+  unfold py_shr. rewrite shiftr_div by lia. change (2 ^ 1) with 2.
+  replace (v >? 2 ^ iw / 2) with false by lia.
+  f_equal. change (Z.land ?x (py_shl 1 ?w - 1)) with (trunc w x). rewrite trunc_mod by lia.
+  unfold py_shl; rewrite shiftl_mul by lia. reflexivity.
+Qed.
+
+(* for iw >= 1 the repaired constructor is the old one *)
+Lemma intToFixedPoint_r_same sw iw fw v : 1 <= iw ->
+  FixedPoint_intToFixedPoint_r sw iw fw v = FixedPoint_intToFixedPoint sw iw fw v.
+Proof.
+  intros Hi. unfold FixedPoint_intToFixedPoint_r, FixedPoint_intToFixedPoint.
+  replace (iw <? 0) with false by lia. replace (iw - 1 <? 0) with false by lia. cbv zeta.
+  rewrite (shl1 iw), (shl1 (iw - 1)) by lia. unfold py_shr. rewrite shiftr_div by lia. change (2 ^ 1) with 2.
+  rewrite (pow2_split iw) by lia. rewrite Z.mul_comm, Z.div_mul by lia. reflexivity.
+Qed.
+
+Lemma fx_zero_ok_r sw iw fw : 0 <= sw -> 0 <= iw -> 0 <= fw ->
+  exists z, FixedPoint_intToFixedPoint_r sw iw fw 0 = Some z.
+Proof.
+  intros. eexists. apply intToFixedPoint_r_spec; first [lia | apply Z.div_pos; [apply Z.pow_nonneg|]; lia].
+Qed.
+
+Lemma fx_add_r_ok sw iw fw a b : 0 <= sw -> 0 <= iw -> 0 <= fw ->
+  FixedPoint_add_r sw iw fw a b = Some (fx_add_spec (fx_width sw iw fw) a b).
+Proof.
+  intros Hs Hi Hf. unfold FixedPoint_add_r, FixedPoint_add_gen. destruct (fx_zero_ok_r sw iw fw Hs Hi Hf) as [z ->].
+  cbv zeta. f_equal. apply (trunc_mod (sw + iw + fw) (a + b)); lia.
+Qed.
+
+Lemma fx_sub_r_ok sw iw fw a b : 0 <= sw -> 0 <= iw -> 0 <= fw ->
+  FixedPoint_sub_r sw iw fw a b = Some (fx_sub_spec (fx_width sw iw fw) a b).
+Proof.
+  intros Hs Hi Hf. unfold FixedPoint_sub_r, FixedPoint_sub_gen. destruct (fx_zero_ok_r sw iw fw Hs Hi Hf) as [z ->].
+  cbv zeta. f_equal. apply (trunc_mod (sw + iw + fw) (a - b)); lia.
+Qed.
+
+(* mult sign-extends from bit w-1: the format needs at least one bit (w = 0: `v >> -1` raises) *)
+Lemma fx_mult_r_ok sw iw fw a b : 0 <= sw -> 0 <= iw -> 0 <= fw -> 1 <= sw + iw + fw ->
+  FixedPoint_mult_r sw iw fw a b = Some (fx_mult_spec (fx_width sw iw fw) fw a b).
+Proof.
+  intros Hs Hi Hf Hw1. unfold FixedPoint_mult_r, FixedPoint_mult_gen. destruct (fx_zero_ok_r sw iw fw Hs Hi Hf) as [z ->].
+  cbv zeta. f_equal. unfold fx_mult_spec, fx_width. set (w := sw + iw + fw).
+  assert (Hw : 1 <= w) by (unfold w; lia).
+  change (Z.land ?x (py_shl 1 w - 1)) with (trunc w x). rewrite trunc_mod by lia.
+  unfold py_shr. rewrite shiftr_div by lia.
+  rewrite !signExtend_char by lia. unfold sign_extend_spec, c2_encode.
+  set (sa := c2_decode w a). set (sb := c2_decode w b).
+  apply div_mod_cong with (K := - sa * (sb / 2 ^ (w * 2)) - sb * (sa / 2 ^ (w * 2)) + (sa / 2 ^ (w * 2)) * (sb / 2 ^ (w * 2)) * 2 ^ (w * 2)) (n := w * 2);
+    try (unfold w; lia).
+  pose proof (pow2_pos (w * 2) ltac:(lia)) as Hp.
+  rewrite (Z.mod_eq sa (2 ^ (w * 2))), (Z.mod_eq sb (2 ^ (w * 2))) by lia. ring.
 Qed.
